@@ -323,6 +323,35 @@ type world struct {
 	pos    []*posinfo
 	labels map[string]string
 	dead   bool // the chain halted: no block is open
+	// the taker-fee settings as configured: what the admin message and governance were told, kept
+	// independently of the chain's own table (setting a pair to the current default removes its override)
+	refFee     map[string]string
+	refDefault string
+}
+
+// configuredFee is the taker fee the settings prescribe for a hop in>out.
+func (w *world) configuredFee(in, out string) osmomath.Dec {
+	if f, ok := w.refFee[in+">"+out]; ok {
+		return dec(f)
+	}
+	return dec(w.refDefault)
+}
+
+// feeTable compares the chain's per-pair taker fee with the configured settings for every ordered pair.
+func (w *world) feeTable(ctx sdk.Context, after string) {
+	for _, in := range w.denoms {
+		for _, out := range w.denoms {
+			if in == out {
+				continue
+			}
+			got, err := w.n.App.PoolManagerKeeper.GetTradingPairTakerFee(ctx, in, out)
+			if want := w.configuredFee(in, out); err != nil || !got.Equal(want) {
+				w.fail("taker-fee-setting", after, "after %s the chain applies taker fee %s (err %v) to %s>%s, the settings made so far prescribe %s (default %s)", after, got, err, in, out, want, w.refDefault)
+				return
+			}
+		}
+	}
+	w.run.Count("fee-table-checks")
 }
 
 func dec(s string) osmomath.Dec { return osmomath.MustNewDecFromStr(s) }
@@ -417,7 +446,7 @@ func (Engine) Execute(run *simcore.Run) {
 		mg.Minter.EpochProvisions = osmomath.ZeroDec()
 		gs[minttypes.ModuleName] = cdc.MustMarshalJSON(&mg)
 	}})
-	w := &world{run: run, n: n, nacct: nacct, denoms: denoms, labels: map[string]string{}}
+	w := &world{run: run, n: n, nacct: nacct, denoms: denoms, labels: map[string]string{}, refFee: map[string]string{}, refDefault: dtf}
 	for i, a := range n.Accts {
 		w.labels[a.String()] = fmt.Sprintf("account %d", i)
 	}
@@ -456,6 +485,8 @@ func (Engine) Execute(run *simcore.Run) {
 		case "setdtf":
 			f := defaultTakerFees[int(st.Arg(0))%len(defaultTakerFees)]
 			n.App.PoolManagerKeeper.SetParam(n.Ctx, pmtypes.KeyDefaultTakerFee, dec(f))
+			w.refDefault = f
+			w.feeTable(n.Ctx, "setdtf")
 			run.Event("setdtf", "gov")
 			run.Logf("%d setdtf %s", i, f)
 		case "advance":
@@ -869,6 +900,17 @@ func (w *world) opSetfee(i int, st simcore.Step) {
 	msg := &pmtypes.MsgSetDenomPairTakerFee{Sender: w.n.Accts[0].String(), DenomPairTakerFee: []pmtypes.DenomPairTakerFee{{TokenInDenom: in, TokenOutDenom: out, TakerFee: dec(fee)}}}
 	res := w.deliver(i, "setfee", msg, st.F)
 	w.run.Logf("%d setfee %s>%s=%s f=%s -> %s err=%v", i, in, out, fee, st.F, res.Outcome, res.Err)
+	if res.OK() {
+		if _, had := w.refFee[in+">"+out]; had && dec(fee).Equal(dec(w.refDefault)) {
+			w.run.Probe("pair-override-reset-to-default")
+		}
+		if dec(fee).Equal(dec(w.refDefault)) {
+			delete(w.refFee, in+">"+out)
+		} else {
+			w.refFee[in+">"+out] = fee
+		}
+	}
+	w.feeTable(w.n.Ctx, "setfee")
 }
 
 // fail records a violation once per (oracle, signature) and run.
